@@ -173,8 +173,8 @@ def check_pins():
             raise TranslatorError(f"no pinned source for {key}")
         if key == UPDATE_AFTER_KEY:
             # the initial value of `first` is translated (first_round_value), everything else is pinned
-            exp = _FIRST0_RE.sub(r"\1first = <FIRST0>", exp, count=1)
-            text = _FIRST0_RE.sub(r"\1first = <FIRST0>", text, count=1)
+            exp = _FIRST0_RE.sub(r"\1first = FIRST0_PLACEHOLDER", exp, count=1)
+            text = _FIRST0_RE.sub(r"\1first = FIRST0_PLACEHOLDER", text, count=1)
         if exp.rstrip("\n") != text.rstrip("\n") and canon_fn_text(exp) != canon_fn_text(text):
             raise TranslatorError(f"source of {key} differs from the shape the model mirrors")
 
